@@ -3,7 +3,7 @@ from __future__ import annotations
 
 import itertools
 
-from .. import common, driver, gen, impl
+from .. import common, direct, driver, gen, impl
 from .. import framework as fw
 
 GEN_SECTIONS = ["Tables", "Regexes", "Unicode"]
@@ -216,6 +216,31 @@ def nothing_and_padding(ctx, out):
         out.case("M2" + fw.h(text), True, None, tags=["missing+bad-song"])
         if x != "E ValueError":
             out.violation("missing-" + fw.h(text), f"chart without [{'], ['.join(drop)}] (and with an unusable [Song]) gave {x[:80]}", rp, observed=x[:200], promised="E ValueError")
+    # (e) two sections with line-for-line identical bodies are two tracks, each under its own header's key with its own label
+    for _ in range(ctx.n(20, 1000)):
+        src = gen.rand_src(rng, prof_b)
+        if not src.tracks:
+            src.tracks.append(gen.TrackSrc(rng.randrange(10), rng.randrange(4), [], [], []))
+        R = gen.render(src, rng, prof_b, garbage=False, newline="\n")
+        donor = src.tracks[0]
+        dbody = next(b for t, b in R.sections if t == gen.header_tag(donor.inst, donor.diff))
+        used = {(t.inst, t.diff) for t in src.tracks}
+        clones = rng.sample([(i, d) for i in range(10) for d in range(4) if (i, d) not in used], rng.randint(1, 2))
+        secs = list(R.sections) + [(gen.header_tag(i, d), dbody) for i, d in clones]
+        if rng.random() < 0.6:
+            rng.shuffle(secs)
+        text = "".join(f"[{t}]\n{{\n" + "".join(l + "\n" for l in b) + "}\n" for t, b in secs)
+        x = impl.run_chart(text)
+        rp = {"op": "clones", "text": text, "keys": [list(k) for k in sorted(used | set(clones))]}
+        out.case("CL" + fw.h(text), True, None, tags=["identical-bodies"])
+        if x.startswith("E "):
+            out.violation("clones-" + fw.h(text), f"chart with identical section bodies raised {x}", rp, observed=x, promised="parses")
+            continue
+        d = gen.parse_dump(x)
+        bad = [(k, v["label"]) for k, v in d["tracks"].items() if tuple(v["label"]) != tuple(k)]
+        if bad or sorted(d["tracks"]) != sorted(used | set(clones)):
+            out.violation("clones-" + fw.h(text), f"sections with identical bodies: tracks {sorted(d['tracks'])}, expected {sorted(used | set(clones))}; labels differing from their key: {bad[:3]}",
+                          rp, observed=str(bad)[:200], promised="each section is its own track under its own key and label")
     prof = gen.Profile(max_tracks=2, garbage=0.0, unknown_sections=0.5, crlf=0.3)
     cases = []
     for _ in range(ctx.n(60, 6000)):
@@ -303,11 +328,17 @@ def slice(ctx: fw.Ctx) -> fw.Outcome:
     files(ctx, out)
     nothing_and_padding(ctx, out)
     malformed(ctx, out)
+    # "receives exactly the body lines between that section's braces": what Chart.from_file makes of each section is what that
+    # section's own public parser makes of exactly those lines (texts with //, #, ;, quotes and backslashes inside values included)
+    direct.run(ctx, out, "all", gen.Profile(max_tracks=3, max_events=8, unknown_sections=0.3, meta_fields=0.8, tricky_text=0.7, exotic_pad=0.2, exotic_digits=0.1),
+               n_quick=40, n_thorough=3000)
     return out
 
 
 def replay(ctx, data):
     op = data["op"]
+    if op == "direct-section":
+        return direct.replay(data)
     if op == "variants":
         xb, xp, xc = (impl.run_chart(data[k]) for k in ("base", "perm", "crlf"))
         return (strip_warn(xp) != strip_warn(xb) or xc != xb), str(fw.first_diff(xb, xp if strip_warn(xp) != strip_warn(xb) else xc))
@@ -317,6 +348,13 @@ def replay(ctx, data):
     if op == "missing":
         x = impl.run_chart(data["text"])
         return x != "E ValueError", x[:200]
+    if op == "clones":
+        x = impl.run_chart(data["text"])
+        if x.startswith("E "):
+            return True, x
+        d = gen.parse_dump(x)
+        bad = [(k, v["label"]) for k, v in d["tracks"].items() if tuple(v["label"]) != tuple(k)]
+        return bool(bad) or sorted(d["tracks"]) != sorted(tuple(k) for k in data["keys"]), str(bad)[:200]
     if op == "nothing-path":
         x = impl.run_path(bytes.fromhex(data["hex"]))
         return x != "E ValueError", x[:200]
